@@ -136,10 +136,15 @@ def parse_vc(ident, text):
                 fs.loops[k] = {"forloop": bool(m.group(2)), "text": "", "props": (m.group(3) or "").split() or None}
                 sec = ("loop", k)
             elif key.startswith("ghost"):
-                m = re.match(r"ghost\s+(before|after|first|last)(?:\s+/(.*)/)?(?:\s+#(\d+))?$", key)
+                m = re.match(r"ghost\s+(before|after|first|last)(?:\s+/(.*)/)?(?:\s+#(\d+))?(?:\s+\[([^\]]*)\])?$", key)
                 if not m:
                     raise ScanError("bad ghost header in %s: %s" % (ident, key))
                 fs.ghosts.append([m.group(1), m.group(2), int(m.group(3)) if m.group(3) else None, ""])
+                # optional `[label P1 P2]`: a ghost assertion that is itself an obligation derived from a property
+                fs.ghost_labels = getattr(fs, "ghost_labels", {})
+                if m.group(4):
+                    ws = m.group(4).split()
+                    fs.ghost_labels[len(fs.ghosts) - 1] = (ws[0], ws[1:] or None)
                 sec = "ghost"
             else:
                 raise ScanError("unknown key %r in %s" % (key, ident))
@@ -619,8 +624,9 @@ def add_fn(unit, fs):
     btxt = tmp.finish()
     blines, bmeta = tmp.lines, tmp.meta
     # T6 ghosts
-    for (pos, rx, nth, gtxt) in fs.ghosts:
-        gmeta = ("clause", fs.ident, "ghost", rx or pos)
+    glabels = getattr(fs, "ghost_labels", {})
+    for gi, (pos, rx, nth, gtxt) in enumerate(fs.ghosts):
+        gmeta = ("clause", fs.ident, "ghost", glabels[gi][0] if gi in glabels else (rx or pos))
         glines = gtxt.rstrip("\n").split("\n")
         if pos in ("first", "last"):
             at = 0 if pos == "first" else len(blines)
@@ -675,7 +681,9 @@ def add_fn(unit, fs):
         "id": fs.ident, "file": fs.file, "path": fs.path, "props": fs.props,
         "sha256": hashlib.sha256(orig.encode()).hexdigest(),
         "src_lines": [it.toks[0].line, it.toks[-1].line],
-        "out_lines": [fn_first, fn_last], "clauses": clauses + [{"kind": "invariant", "label": "loop%d" % k, "props": sp.get("props") or fs.props, "text": " ".join(sp["text"].split())[:300], "lines": []} for k, sp in fs.loops.items()], "nobody": fs.nobody,
+        "out_lines": [fn_first, fn_last], "clauses": clauses + [{"kind": "invariant", "label": "loop%d" % k, "props": sp.get("props") or fs.props, "text": " ".join(sp["text"].split())[:300], "lines": []} for k, sp in fs.loops.items()]
+            + [{"kind": "ghost", "label": lab, "props": pr or fs.props, "text": " ".join(fs.ghosts[gi][3].split())[:300], "lines": []} for gi, (lab, pr) in sorted(getattr(fs, "ghost_labels", {}).items()) if gi < len(fs.ghosts)],
+        "nobody": fs.nobody,
         "loops": len(loops),
     })
 
@@ -702,6 +710,7 @@ def _twin(fs, twin):
         return
     if twin == "entry":
         fs.ghosts.insert(0, ["first", None, None, "    assert(false); // VACUITY-ENTRY\n"])
+        fs.ghost_labels = {gi + 1: v for gi, v in getattr(fs, "ghost_labels", {}).items()}
     elif isinstance(twin, tuple) and twin[0] == "fn" and twin[1] == fs.ident:
         fs.ensures.append(Clause("ensures", "VACUITY", ["_vacuity"], "false"))
 
